@@ -51,11 +51,13 @@ func runC03(c *Ctx) {
 		r.WithAlias("R09-order", "R03-scores", func() {
 			r.WithAlias("R09-negate", "R03-scores", func() {
 				r.WithAlias("R09-incr", "R03-scores", func() {
-					r.WithAlias("R09-maxmin", "R03-scores", func() { c09Run(c) })
+					r.WithAlias("R09-maxmin", "R03-scores", func() { c09Run(c); c09Decr(c, "R03-scores") })
 				})
 			})
 		})
 	})
+	r.Rule("R03-window", "the window handed to a child is the exact pre-image of the parent's window under the child-score transformation: Negate(IncrementMateDistance(child lower bound)) = beta and Negate(IncrementMateDistance(child upper bound)) = current alpha, for heuristic and mate scores alike (otherwise mate bounds drift by a ply per level and fail-hard returns produce impossible mate distances)", 20)
+	c.guard("R03-window", func() { c03Window(c, m, "R03-window") })
 	// a cut-off taken before any move was tried would hide a mate/stalemate at that node (rule of C13)
 	c.guard("R03-terminal", func() {
 		rec := recursiveSearchFuncs(c, m)
@@ -268,12 +270,13 @@ func c03Paths(c *Ctx, m *searchModel) {
 								badN = fmt.Sprintf("child searched to depth %s instead of %s-1", got, depthP)
 							}
 						case alphaP:
-							if got != "Negate("+betaP+")" {
-								badN = fmt.Sprintf("child's lower bound is %s, expected Negate(%s)", got, betaP)
+							// a transformation of the parent's beta that negates it (its exactness is R03-window)
+							if inner, fns := unwrapUnary(got); inner != betaP || !fns["Negate"] {
+								badN = fmt.Sprintf("child's lower bound is %s, expected a negation of %s", got, betaP)
 							}
 						case betaP:
-							if !strings.HasPrefix(got, "Negate(") || !growsFrom(strings.TrimSuffix(strings.TrimPrefix(got, "Negate("), ")"), alphaP, st) {
-								badN = fmt.Sprintf("child's upper bound is %s, expected Negate(current alpha)", got)
+							if inner, fns := unwrapUnary(got); !fns["Negate"] || !growsFrom(inner, alphaP, st) {
+								badN = fmt.Sprintf("child's upper bound is %s, expected a negation of the current alpha", got)
 							}
 						}
 					}
@@ -893,4 +896,29 @@ func newMoveListCopies(fn *ssa.Function) (okLen, okCopy bool, why string) {
 		}
 	}
 	return
+}
+
+// unwrapUnary strips single-argument function applications F(G(x)) from a rendered term and
+// returns x together with the set of function names applied.
+func unwrapUnary(term string) (string, map[string]bool) {
+	fns := map[string]bool{}
+	for {
+		i := strings.Index(term, "(")
+		if i <= 0 || !strings.HasSuffix(term, ")") {
+			return term, fns
+		}
+		name := term[:i]
+		if strings.ContainsAny(name, ",{} ") {
+			return term, fns
+		}
+		inner := term[i+1 : len(term)-1]
+		if len(splitTop(inner)) != 1 {
+			return term, fns
+		}
+		if name == "Max" {
+			return term, fns
+		}
+		fns[name] = true
+		term = inner
+	}
 }
